@@ -144,7 +144,7 @@ def stepLine (d : DSt) (line : String) : DSt × String :=
       | ["sC"] => fin (stepC s)
       | ["sD"] => fin (stepD s)
       | ["drain"] =>
-        let r := drain cfg loop 200 s []
+        let r := drain cfg loop 400 s []
         fin (r.1, "drain " ++ "|".intercalate r.2 ++ " " ++ peerS r.1)
       | _ => (d, "bad-op")
 
